@@ -686,6 +686,29 @@ func (c *Ctx) ruleLoopOutlivesConnectCtx(rr *RuleRep) {
 			}
 		}
 		if inOnce {
+			// the rebinding must reach the dial: the variable is read again on the way round the loop, not copied once before it
+			var doCall ssa.Instruction
+			for _, mc := range c.makeClosures[st.Parent()] {
+				for _, uu := range *mc.Referrers() {
+					if k, ok := uu.(*ssa.Call); ok && isStdCall(&k.Call, "sync", "Do") && k.Parent() == m.F {
+						doCall = k
+					}
+				}
+			}
+			var dialLoad ssa.Instruction
+			for _, a := range m.Dial.Call.Args {
+				if u, ok := a.(*ssa.UnOp); ok && u.Op == token.MUL {
+					if c2, ok := c.addrRoot(u.X).(*ssa.Alloc); ok && c2 == cell {
+						dialLoad = u
+					}
+				}
+			}
+			if doCall != nil && dialLoad != nil {
+				if _, again := CanReach(m.F, doCall, func(x ssa.Instruction) bool { return x == dialLoad }, PathQ{}); !again {
+					rr.Bad(key, m.Dial.Pos(), "the reconnect loop dials with a copy of its context taken before the loop: rebinding the variable to context.Background() at the first success never reaches the dial, so the loop stays tied to the context passed to Connect")
+					return
+				}
+			}
 			rr.OK(key, st.Pos(), "the context the loop dials with is rebound to context.Background() in the once-only first-success block")
 			return
 		}
